@@ -272,6 +272,10 @@ func runCheck(repo, out, prop, tier string, timeout, seed int, verbose, keep boo
 			}
 			continue
 		}
+		if g.Kind == "unwinddefault" {
+			undec = append(undec, fmt.Sprintf("%s: %s", n, g.Desc))
+			continue
+		}
 		if contractsBroken || problemFuncs[g.Func] {
 			undec = append(undec, fmt.Sprintf("%s: not discharged, but the contract of %s cannot be evaluated on this tree", n, g.Func))
 			continue
